@@ -19,6 +19,7 @@ import time
 VERIF = os.path.dirname(os.path.dirname(os.path.abspath(__file__)))
 REPO = os.environ.get("VERIF_REPO", "/repo")
 COQ = os.path.join(VERIF, "coq")
+OUT = os.environ.get("VERIF_OUT", VERIF)  # evidence/ and replays/ go here (scratch runs set it)
 BUILD = os.path.join(VERIF, ".build")
 GOENV = dict(os.environ, GOFLAGS="-mod=mod", GOPROXY="off", GOSUMDB="off", GOTOOLCHAIN="local")
 
@@ -142,19 +143,22 @@ def strip_comments(s):
 # ---------------------------------------------------------------- harness
 
 def build_harness():
-    """go build -tags verif against REPO's current working tree. Returns (ok, path, log)."""
+    """go build -tags verif against REPO's current working tree. Returns (ok, path, log).
+
+    The module file is generated per repository path (-modfile), so that a scratch copy can be
+    checked (VERIF_REPO) while other checks run against /repo."""
     h = os.path.join(VERIF, "harness")
-    with Lock("go"):
+    os.makedirs(BUILD, exist_ok=True)
+    tag = hashlib.sha1(REPO.encode()).hexdigest()[:8]
+    modfile = os.path.join(BUILD, "harness_%s.mod" % tag)
+    with Lock("go_" + tag):
         tmpl = open(os.path.join(h, "go.mod.tmpl")).read().replace("@REPO@", REPO)
-        gm = os.path.join(h, "go.mod")
-        if not os.path.exists(gm) or open(gm).read() != tmpl:
-            open(gm, "w").write(tmpl)
-        shutil.copy(os.path.join(REPO, "go.sum"), os.path.join(h, "go.sum"))
-        exe = os.path.join(BUILD, "vh")
-        rc, out, err, dt = run(["go", "build", "-tags", "verif", "-o", exe, "./cmd/vh"], cwd=h, env=GOENV, timeout=900)
+        if not os.path.exists(modfile) or open(modfile).read() != tmpl:
+            open(modfile, "w").write(tmpl)
+        shutil.copy(os.path.join(REPO, "go.sum"), modfile[:-4] + ".sum")
+        mine = os.path.join(BUILD, "vh.%d" % os.getpid())
+        rc, out, err, dt = run(["go", "build", "-modfile=" + modfile, "-tags", "verif", "-o", mine, "./cmd/vh"], cwd=h, env=GOENV, timeout=900)
         if rc == 0:
-            mine = os.path.join(BUILD, "vh.%d" % os.getpid())
-            shutil.copy(exe, mine)
             return True, mine, out + err
     return False, None, out + err
 
